@@ -183,8 +183,25 @@ _SHAPES = [
                             ipc_write_context,
                         )?);
                     }"""),
-    ("SHAPE_READ_BUFFER", _R, """let start_offset = buf.offset() as usize;
-    let buf_data = a_data.slice_with_length(start_offset, buf.length() as usize);"""),
+    ("SHAPE_READ_BUFFER", _R, """let (offset, length) = (buf.offset(), buf.length());
+    let in_bounds = offset >= 0
+        && length >= 0
+        && (offset as u64).saturating_add(length as u64) <= a_data.len() as u64;
+    if !in_bounds {"""),
+    ("SHAPE_READ_BUFFER_SLICE", _R, "let buf_data = a_data.slice_with_length(offset as usize, length as usize);"),
+    ("SHAPE_READ_UNION_TYPE_IDS", _R, """let type_ids = self.next_buffer()?;
+                if type_ids.len() < len {"""),
+    ("SHAPE_READ_UNION_OFFSETS", _R, """let offsets = self.next_buffer()?;
+                        if offsets.len() / 4 < len {"""),
+    ("SHAPE_READ_UNION_ALIGN", _R, """let offsets = offsets.slice_with_length(0, len * 4);
+                        // the offsets must be aligned for `i32`: copy them unless alignment is required
+                        let offsets = if offsets.as_ptr().align_offset(std::mem::align_of::<i32>()) == 0 {
+                            offsets
+                        } else if self.require_alignment {"""),
+    ("SHAPE_READ_UNION_COPY", _R, """} else {
+                            Buffer::from(offsets.as_slice())
+                        };
+                        let offsets: ScalarBuffer<i32> = offsets.into();"""),
     ("SHAPE_UPDATE_DICT", _R, """if !is_delta {
         // We don't currently record the isOrdered field. This could be general
         // attributes of arrays.
